@@ -155,7 +155,10 @@ Definition cc_opt_nat_eqb (a : option nat) (b : nat) : bool := match a with Some
    (Name, ChangeFileName), last registerWithParent(f), which locks the new parent unless held *)
 Definition cc_rename_code (s : mst) (p q : str) : list cc_instr :=
   match lookup s p with
-  | None => []
+  | None =>
+    (* the source is missing: IsDir of its directory, then lockfreeBelowFile(q) (IsDir of the
+       directory of the target, if there is one) — transient, nothing is held *)
+    cc_touches_h [] (cc_node_at s (cc_parent_path p) ++ cc_node_at s (cc_parent_path q))
   | Some f =>
     let descs := find_descendants s p in
     let parents := if prefixb (p ++ s_slash) q then []
@@ -934,7 +937,7 @@ Definition cc_locktab : list (string * string) := [
   ("MemMapFs.OpenFile", "if{ mu.Lock defer:mu.Unlock call:lockfreeOpenOrCreate } else{ mu.RLock defer:mu.RUnlock } if{ ret } if{ call:Seek if{ call:Close ret } } if{ call:Truncate if{ call:Close ret } } ret");
   ("MemMapFs.Remove", "mu.Lock defer:mu.Unlock if{ call:unRegisterWithParent if{ ret } } else{ ret } ret");
   ("MemMapFs.RemoveAll", "mu.Lock defer:mu.Unlock call:unRegisterWithParent ret");
-  ("MemMapFs.Rename", "mu.Lock defer:mu.Unlock if{ if{ ret } call:lockfreeBelowFile if{ ret } if{ pOld.Lock defer:pOld.Unlock } if{ pNew.Lock defer:pNew.Unlock } call:unRegisterWithParent if{ ret } call:ChangeFileName call:renameDescendants if{ ret } call:registerWithParent } else{ ret } ret");
+  ("MemMapFs.Rename", "mu.Lock defer:mu.Unlock if{ if{ ret } call:lockfreeBelowFile if{ ret } if{ pOld.Lock defer:pOld.Unlock } if{ pNew.Lock defer:pNew.Unlock } call:unRegisterWithParent if{ ret } call:ChangeFileName call:renameDescendants if{ ret } call:registerWithParent } else{ call:IsDir call:lockfreeBelowFile if{ ret } ret } ret");
   ("MemMapFs.Stat", "call:Open if{ ret } ret");
   ("MemMapFs.findDescendants", "func{ call:Name call:Name if{ ret } ret } ret");
   ("MemMapFs.findParent", "call:Name if{ ret } ret");
